@@ -17,8 +17,8 @@ from pvmon.common import US, fields, off_us, us_to_fields
 from pvmon.oracle import iso
 
 PLAN = {
-    "quick": {"configs": ["ext1", "ext0"], "nshards": 8, "timeout": 900},
-    "thorough": {"configs": ["ext1", "ext0"], "nshards": 16, "timeout": 3400, "suite": ["ext1"]},
+    "quick": {"configs": ["ext1", "ext0"], "nshards": 8, "timeout": 900, "week_start": [0, 6, 0, 5, 2]},
+    "thorough": {"configs": ["ext1", "ext0"], "nshards": 16, "timeout": 3400, "suite": ["ext1"], "week_start": [0, 6, 0, 5, 2]},
 }
 DECIDING = ["py.direct", "rs.direct", "backend_eq", "parse", "parse.exact", "parse.tz", "reject", "roundtrip", "hook.parse_iso8601"]
 FLOORS = {"quick": {"py.direct": 300000, "rs.direct": 300000, "backend_eq": 300000, "parse": 100000, "parse.exact": 50000, "parse.tz": 50000,
